@@ -9,7 +9,7 @@ P = {
                   'debit leaves balance >= locked whatever the state before; the eth ante pre-check is sound w.r.t. the debit rule; a delegation '
                   'never exceeds balance - unvested; "unvested coins are never delegated" holds after ALL histories; "balance >= locked" holds '
                   'after all histories that do not merge a grant after a slash (partial) and is refuted for those (finding, reproduced on /repo). '
-                  'The model is compared on every run with the real application over 13 spend paths, 3 delegation paths, undelegation, unbonding '
+                  'The model is compared on every run with the real application over 13 spend paths, 3 delegation paths, 3 validator-creation paths, undelegation, unbonding '
                   'completion, slashing, clawback and grant merges, with amounts at spendable-1/0/+1. '
                   'Account kind (vesting / plain EthAccount) and the account-type messages are part of the model and of the histories: '
                   'MsgConvertVestingAccount succeeds only for a vesting account whose SCHEDULE has nothing unvested and nothing locked up '
@@ -26,7 +26,15 @@ P = {
                   'followed by an ordinary delegation that Haqq\'s guard accepts (the missing guard is implied), so "unvested never delegated" and '
                   '"balance >= locked" (K11 exclusion unchanged) hold over all histories containing it; staking the account-wide vested amount of '
                   'the merged schedule instead delegates freshly deposited unvested coins once earlier vested coins were spent (refuted with witness: '
-                  'balance 250 < unvested 750, the funder\'s clawback fails)',
+                  'balance 250 < unvested 750, the funder\'s clawback fails). '
+                  'Validator creation is an operation of the model on three routes (MsgCreateValidator through the message router, inside authz '
+                  'MsgExec, through the staking precompile\'s createValidator in an Ethereum transaction signed by the account): on every route the '
+                  'code hands the message to Haqq\'s staking message-server wrapper, so the step is validateDelegationAmountNotUnvested followed by '
+                  'the SDK\'s DelegateCoins + TrackDelegation — proved equal to the ordinary guarded delegation of the self-bond; a successful '
+                  'self-bond is positive and at most balance - unvested, anything above is refused on every route, a refusal changes nothing; '
+                  '"unvested never delegated" and "balance >= locked" (K11 exclusion unchanged) hold over all histories mixing validator creation '
+                  'with every other operation; with the Cosmos SDK\'s own message server behind the precompile the account\'s own Ethereum '
+                  'transaction bonds a wholly unvested grant (refuted with witness: balance 0 < unvested 750, the funder\'s clawback fails)',
     'level_note': 'trusted: Coq kernel + vm_compute; the hand-written single-denomination model (tied to /repo only by the sampled correspondence '
                   'run, two denominations side by side); the merged (DisjunctPeriods) and capped (ConjunctPeriods) schedules are inputs of the '
                   'model, checked for well-formedness and monotonicity at use (their exact construction is property C09); SDK staking shares/'
@@ -34,7 +42,10 @@ P = {
                   'keepers are only driven, not modelled; IBC transfer is not driven (no channel can be mocked cheaply); for a converted '
                   'account the model keeps the discarded vesting record as a ghost (the code has dropped it); MsgConvertIntoVestingAccount '
                   '{Stake:true}: the merged schedule is an input as for every merge, the model checks at use that at the block time it has vested at '
-                  'least old vested + vested part of the grant (C09: union of events); no axioms',
+                  'least old vested + vested part of the grant (C09: union of events); validator creation: only the bank / tracking side of '
+                  'MsgCreateValidator is modelled; the staking module\'s own refusals (a validator of the operator or with the consensus key '
+                  'exists, commission / description / MinSelfDelegation checks) are not: the harness issues the model step only for an account '
+                  'that is not a validator yet, with parameters the staking module accepts; no axioms',
     'technique': 'Coq proof (invariants by induction over operation histories, closed-form of the locked amount) + differential '
                  'correspondence and property oracle with an independent big.Int reference of the schedule',
     'drivers': [
@@ -49,7 +60,10 @@ P = {
             'chosen block times: spend attempts (MsgSend, MsgMultiSend, authz-exec MsgSend, eth value transfer incl. the ante vesting decorator, '
             'contract-internal transfer through the script contract, UC DAO MsgFund, gov MsgDeposit, ERC20 ConvertCoin, MsgSend through the '
             'ERC20 route, cosmos fee deduction decorator, eth fee deduction) at spendable-1/0/+1/half/one, delegations (MsgDelegate, authz exec, '
-            'staking precompile) at delegatable-1/0/+1, undelegate, staking end-block (unbonding completion), time advance, Slash, credit, '
+            'staking precompile) at delegatable-1/0/+1, validator creation = the self-bond of MsgCreateValidator (through the router, inside '
+            'authz MsgExec under a generic grant, through the staking precompile\'s createValidator hand-packed into an Ethereum transaction '
+            'signed by the account) at delegatable-1/0/+1/half/one/the whole balance, undelegate (from the genesis validator or of the '
+            'self-bond), staking end-block (unbonding completion), time advance, Slash, credit, '
             'grant merge (by the funder / a foreign signer), clawback (current / stale funder), MsgConvertVestingAccount, '
             'MsgConvertIntoVestingAccount (plain -> vesting, merge, wrong signer; with Stake in half of them), MsgUpdateVestingFunder; '
             'the account may also be created by MsgConvertIntoVestingAccount on an address without account, and by the converting message '
@@ -58,7 +72,14 @@ P = {
             'and spent, then MsgConvertIntoVestingAccount with Merge (88 %) and Stake (90 %) carrying a grant that is not / partly / fully '
             'vested at the block time with a deposit of the same or a larger size, then the funder\'s clawback, spends at spendable / '
             'spendable+1, delegations at delegatable+1, undelegation, unbonding maturity, conversion to a plain account and a stake message '
-            'onto it (with / without delegations), second round on the merged schedule; 30 % of the cases are '
+            'onto it (with / without delegations), second round on the merged schedule; 15 % of the cases are validator histories: account '
+            'created / converted / new, block time steered before the start of the schedule / to its start / inside it / to the vesting end / '
+            'between the ends / behind both, the vested coins left alone / half or fully delegated / half or fully spent / with an undelegation in '
+            'flight / free coins on top, then the self-bond over one route at delegatable+1 or the whole balance (then again over the other two '
+            'routes) or at delegatable / -1 / half / one (then a second validator of the same operator), then delegation at delegatable+1, spend '
+            'at spendable+1, the funder\'s clawback, undelegation of the self-bond + unbonding maturity, a later attempt, a merged grant and an '
+            'attempt above, conversion to a plain account and validator creation by it; 2 % of the operations of the general mix are validator '
+            'creations; 30 % of the cases are '
             'account-type histories: block time steered before / at / between / after the vesting end and the lock-up end of the schedule in '
             'the input, none / half / all-but-one / all of the delegatable amount delegated, optional undelegation in flight, clawback, '
             'merged grant, slash, funder change, then MsgConvertVestingAccount, undelegation, staking end-block after the unbonding time, '
@@ -67,7 +88,8 @@ P = {
             'messages and the state left by the creating message included); after EVERY successful operation (delegations over the three '
             'paths, stake messages, merges, clawbacks, payouts, time, slashes) the unvested amount of the stored schedule (reference '
             'evaluation) is still in the bank balance, i.e. nothing bonded or unbonding is an unvested coin, whoever requested the '
-            'delegation; a refused stake message (nothing of this grant vested, no merge flag, foreign signer) is replayed on the model '
+            'delegation — a validator creation included: it succeeds only with a self-bond covered by balance - unvested, its validator then '
+            'holds exactly that self-bond; a refused stake message (nothing of this grant vested, no merge flag, foreign signer) is replayed on the model '
             'with the schedule the message would have produced and must be refused there too; a '
             'successful MsgConvertVestingAccount at block time t requires original - unlocked(t) = 0 and original - vested(t) = 0 in both '
             'denominations (reference evaluation of the stored schedule); if it succeeds otherwise the discarded schedule stays an '
@@ -78,6 +100,8 @@ P = {
         'Coq 8.16.1 kernel incl. vm_compute (no native_compute)',
         'axioms: none (Print Assumptions: closed under the global context for every theorem of Props/C08.v)',
         'correspondence harness harness/locked.go + vlib/core.py (generator, reference schedule evaluation, oracle, shrinker)',
+        'modelled, not verified: that the message router, authz MsgExec and the staking precompile hand MsgCreateValidator to Haqq\'s staking '
+        'message-server wrapper (sampled on every run over the three routes at delegatable / delegatable+1)',
         'modelled, not verified: SDK bank subUnlockedCoins / DelegateCoins / UndelegateCoins, BaseVestingAccount.TrackUndelegation, the '
         'account keeper storing an EthAccount in place of the vesting record (plain accounts: no locked amount, no tracking); inputs of '
         'the model: merged / capped schedules (C09), the staking module\'s bonded and unbonding figures, matured unbonding payouts',
